@@ -16,7 +16,28 @@ from vlib import build_walks, read_ndjson, split_traces, Infra
 W = 2   # look-ahead window in abstract time units (cfg files use the same value)
 
 
+def replay(ctx, path):
+    """Re-execute the operations of a stored violation on the current tree and judge them again."""
+    with open(path) as fh:
+        rp = json.load(fh)["replay"]
+    evs = rp["trace"]
+    walk = {"gen": evs[0].get("gen", 0), "ops": [{k: e["o"][k] for k in ("op", "sg", "py", "ts")} for e in evs if e["ev"] == "Op"]}
+    d = ctx.specdir("Membership")
+    cases = os.path.join(ctx.scratch, "cases.json")
+    with open(cases, "w") as fh:
+        json.dump({"w": rp.get("w", W), "walks": [walk], "random": 0, "randlen": 0, "tmax": 0}, fh)
+    trace = os.path.join(ctx.scratch, "trace.ndjson")
+    ctx.go_harness("storage", "^TestVerifLifecycleReplay$", env={"VERIF_CASES": cases, "VERIF_TRACE": trace})
+    events = read_ndjson(trace)
+    ctx.evaluations = len(walk["ops"])
+    ctx.distinct = 1
+    ctx.rule = "replay of one stored operation sequence"
+    validate(ctx, d, trace, events, split_traces(events))
+
+
 def run(ctx, args):
+    if getattr(args, "replay", None):
+        return replay(ctx, args.replay)
     quick = ctx.tier == "quick"
     rng = random.Random(ctx.seed)
     d = ctx.specdir("Membership")
@@ -29,7 +50,7 @@ def run(ctx, args):
         wit += [("MC_Lifecycle_wit_path.cfg", "WitnessPath"), ("MC_Lifecycle_wit_latest.cfg", "LatestReported"),
                 ("MC_Lifecycle_wit_cancel.cfg", "WitnessCancel"), ("MC_Lifecycle_wit_panic.cfg", "WitnessPanic")]
     gens = [("Gen_Lifecycle_g1.cfg", 1), ("Gen_Lifecycle_g0.cfg", 0)] if quick else \
-           [("Gen_Lifecycle_t1.cfg", 1), ("Gen_Lifecycle_t0.cfg", 0)]
+           [("Gen_Lifecycle_t1.cfg", 1), ("Gen_Lifecycle_g0.cfg", 0)]
     with ThreadPoolExecutor(max_workers=4) as ex:
         f3 = [ex.submit(ctx.tlc_mc, d, mc, c, workers=(4 if quick else 8), timeout=1500, count=False) for c in e3]
         fe = [ex.submit(ctx.tlc_edges, d, mc, c, timeout=1500) for c, _ in gens]
